@@ -158,15 +158,17 @@ def extract(src_text, spec):
     meta = {"outlined": [], "edits": []}
     body = strip_comments(body)
     sig = strip_comments(sig)
-    # (f) literal rewrites
-    for old, new in spec.get("rewrites", []):
-        if body.count(old) != 1 and sig.count(old) != 1:
-            raise LostAnchor("rewrite anchor %r in fn %s: %d matches" % (old, name, body.count(old)))
-        if body.count(old) == 1:
-            body = body.replace(old, new)
-        else:
-            sig = sig.replace(old, new)
-        meta["edits"].append("rewrite %r -> %r" % (old, new))
+    # (f) literal rewrites: a pure respelling is applied to every occurrence (at least one must exist);
+    #     a rewrite given as (old, new, "once") must match exactly once
+    for rw in spec.get("rewrites", []):
+        old, new = rw[0], rw[1]
+        once = len(rw) > 2 and rw[2] == "once"
+        nb, ns = body.count(old), sig.count(old)
+        if nb + ns == 0 or (once and nb + ns != 1):
+            raise LostAnchor("rewrite anchor %r in fn %s: %d matches" % (old, name, nb + ns))
+        body = body.replace(old, new)
+        sig = sig.replace(old, new)
+        meta["edits"].append("rewrite %r -> %r (%d occurrence(s))" % (old, new, nb + ns))
     # (a) named return
     m = re.search(r"->\s*(.+)$", sig, re.S)
     if m:
